@@ -548,11 +548,14 @@ def _r2_nan(ctx):
     prog = ctx.prog
     ctx.rule("R-C03-2", floor=4, what="NaN removal warns; mask from original samples; values before correction; correction post-dominates index creation")
     ft = prog.func(GEN + ":find_turns")
-    clean = prog.functions.get(ft.key + ".clean_nans")
-    corr = prog.functions.get(ft.key + ".correct_turns_by_nans")
-    if clean is None or corr is None:
-        # role fallback: nested function that returns a filtered view / that mutates its first parameter
-        raise AnalysisError("find_turns: NaN helper functions not found")
+    nested = [fi for k, fi in prog.functions.items() if fi.parent is ft]
+    # roles, not names: the cleaning helper computes the NaN mask of its parameter; the correcting helper (in-place idiom)
+    # shifts its first parameter with an augmented subscript assignment
+    clean = next((fi for fi in nested if any(call_name(c) in ("pd.isna", "np.isnan", "pd.isnull") for c in calls_in(fi.node))), None)
+    corr = next((fi for fi in nested if fi is not clean and any(isinstance(x, ast.AugAssign) and isinstance(x.target, ast.Subscript)
+                                                                for x in walk_function(fi.node))), None)
+    if clean is None:
+        raise AnalysisError("find_turns: NaN cleaning helper not found")
     # (1) warn on every path that drops samples
     cfg = CFG(clean.node)
     p0 = clean.params[0]
@@ -582,16 +585,15 @@ def _r2_nan(ctx):
     call_clean = [s for s in body if isinstance(s, ast.Assign) and isinstance(s.value, ast.Call) and
                   call_name(s.value) == clean.name]
     call_corr = [s for s in body if isinstance(s, ast.Expr) and isinstance(s.value, ast.Call) and
-                 call_name(s.value) == corr.name]
+                 corr is not None and call_name(s.value) == corr.name]
     idx_defs = [s for s in body if isinstance(s, ast.Assign) and isinstance(s.targets[0], ast.Name) and
                 call_corr and isinstance(call_corr[0].value.args[0], ast.Name) and
                 s.targets[0].id == call_corr[0].value.args[0].id]
     ret = [s for s in body if isinstance(s, ast.Return)]
     if not (call_clean and ret):
         raise AnalysisError("find_turns: clean call / return not found")
-    if not call_corr or not idx_defs:
-        ctx.violated(ft, ret[-1], "turn indices are returned without the NaN index correction", text="missing correction")
-        return
+    if corr is None or not call_corr or not idx_defs:
+        return _r2_lookup_idiom(ctx, prog, ft, ret[-1])
     cc = call_corr[0]
     # post-dominance: every path from index creation to the return passes the correction
     if cfg.must_pass(cfg.exit, {cfg.node(cc)}, start=cfg.node(idx_defs[0])):
@@ -629,6 +631,51 @@ def _r2_nan(ctx):
         ctx.holds(corr, aug[0], "indices >= NaN position are shifted by one, NaN positions processed in ascending order")
     else:
         ctx.violated(corr, aug[0] if aug else corr.node, "index correction is not 'index[index >= nan_pos] += 1'")
+
+
+def _r2_lookup_idiom(ctx, prog, ft, ret):
+    """Second accepted idiom of the index correction: the indices found in the cleaned samples are looked up in the positions
+    of the kept samples, index_out = positions_of_kept[index], positions_of_kept = flatnonzero(~isna(samples)).  Decided on the
+    symbolic value find_turns returns.  A returned index that is just the index into the cleaned samples is a violation; any
+    other shape is undecided."""
+    from ..absint import Interp, TermDomain, Seq, term_walk, term_alternatives
+    t = Interp(prog, TermDomain()).run(ft, [("p", q) for q in ft.params])
+    alts = [a for a in term_alternatives(t) if isinstance(a, Seq) and len(a) == 2]
+    if not alts:
+        raise AnalysisError("find_turns: returned (index, values) pair not recognised")
+    idx_out, vals = alts[0]
+    val_alts = term_alternatives(vals)
+    raw = None
+    for v in val_alts:
+        if isinstance(v, tuple) and len(v) == 3 and v[0] == "at":
+            raw = v[2]                      # the index the turn values are read with (positions in the cleaned samples)
+    if raw is None:
+        raise AnalysisError("find_turns: the statement reading the turn values was not recognised")
+
+    def positions_of_kept(z):
+        for a in term_alternatives(z):
+            m = None
+            if isinstance(a, tuple) and a[0] == "call" and a[1] in ("np.flatnonzero",) and a[2]:
+                m = a[2][0]
+            elif isinstance(a, tuple) and a[0] == "at" and a[2] == ("c", 0) and isinstance(a[1], tuple) and a[1][0] == "call" and \
+                    a[1][1] in ("np.where", "np.nonzero") and a[1][2]:
+                m = a[1][2][0]
+            if m is not None and isinstance(m, tuple) and m[0] == "u" and m[1] in ("invert", "not") and \
+                    isinstance(m[2], tuple) and m[2][0] == "call" and m[2][1] in ("pd.isna", "np.isnan", "pd.isnull") and \
+                    m[2][2] == (("p", ft.params[0]),):
+                return True
+        return False
+    mapped = [a for a in term_alternatives(idx_out) if isinstance(a, tuple) and len(a) == 3 and a[0] == "at" and a[2] == raw]
+    if mapped and all(positions_of_kept(a[1]) for a in mapped):
+        ctx.holds(ft, ret, "index correction by look-up: returned index = positions of the kept samples [index in the cleaned samples]")
+        ctx.holds(ft, ret, "the look-up table is flatnonzero(~isna(original samples))")
+        ctx.holds(ft, ret, "turn values are read with the uncorrected index (positions in the cleaned samples)")
+        return
+    if all(a == raw for a in term_alternatives(idx_out)):
+        ctx.violated(ft, ret, "turn indices are returned without the NaN index correction", text="missing correction")
+        return
+    raise AnalysisError("find_turns: the NaN index correction uses an idiom that is not in the accepted table "
+                        "(in-place shift per NaN / look-up in the positions of the kept samples)")
 
 
 # ----------------------------------------------------------------------------- R-C03-3
